@@ -5,6 +5,7 @@ package main
 import (
 	"fmt"
 	"sync"
+	"time"
 )
 
 func init() {
@@ -34,7 +35,7 @@ func runC04(c *Ctx) {
 			go func(i int, cf cfg) {
 				defer wg.Done()
 				results[i] = runStress(c, stressOpts{Name: fmt.Sprintf("%s-r%d", cf.name, round), Bed: cf.bed, Workers: workers, PerWorker: per,
-					HotNames: 16, UniqueFrac: 0.5, MaxDelayMs: 50, Seed: c.Seed + int64(round)*1000})
+					HotNames: 16, UniqueFrac: 0.5, MaxDelayMs: 50, Seed: c.Seed + int64(round)*1000, LateReplies: 6, MinDuration: 8500 * time.Millisecond})
 			}(i, cf)
 		}
 		wg.Wait()
